@@ -1,1 +1,92 @@
--- C09: property theorems (to be filled in)
+/-
+C09 — unsupported or malformed queries are refused, never half-translated.
+
+The dispatch tables are regenerated from the translator's source on every run; the visitor
+model visits every live child (as `get_rep` does) and fails at the first node it cannot express.
+-/
+import FaxVerif.C09.Model
+namespace FaxVerif.C09
+
+mutual
+  theorem visit_error_of_unsupported : ∀ p : Py, hasUnsupported p = true → ∃ e, visit p = .error e
+    | .node kind op nops children, h => by
+      simp only [hasUnsupported, Bool.or_eq_true, Bool.not_eq_true'] at h
+      simp only [visit]
+      by_cases hs : supportedNode kind op nops = true
+      · simp only [hs, if_true]
+        rcases h with h | h
+        · rw [hs] at h; simp at h
+        · exact visitAll_error_of_unsupported children h
+      · exact ⟨.unsupported kind op, by simp [hs]⟩
+  theorem visitAll_error_of_unsupported : ∀ ps : List Py, anyUnsupported ps = true → ∃ e, visitAll ps = .error e
+    | [], h => by simp [anyUnsupported] at h
+    | c :: cs, h => by
+      simp only [anyUnsupported, Bool.or_eq_true] at h
+      simp only [visitAll]
+      cases hc : visit c with
+      | error e => exact ⟨e, rfl⟩
+      | ok u =>
+        rcases h with h | h
+        · obtain ⟨e, he⟩ := visit_error_of_unsupported c h
+          rw [hc] at he; simp at he
+        · exact visitAllError cs h
+  theorem visitAllError : ∀ ps : List Py, anyUnsupported ps = true → ∃ e, visitAll ps = .error e
+    | ps, h => visitAll_error_of_unsupported ps h
+end
+
+/-- **C09.fail_closed** — if ANY live node of a query, at any depth, is something the translator's
+tables cannot express (operator outside the tables, comparison chain, unknown node class), the
+visit fails: errors propagate to the top and nothing is silently skipped. -/
+theorem fail_closed (p : Py) (h : hasUnsupported p = true) : ∃ e, visit p = .error e :=
+  visit_error_of_unsupported p h
+
+mutual
+  theorem visit_ok_of_supported : ∀ p : Py, hasUnsupported p = false → visit p = .ok ()
+    | .node kind op nops children, h => by
+      simp only [hasUnsupported, Bool.or_eq_false_iff, Bool.not_eq_false'] at h
+      simp only [visit, h.1, if_true]
+      exact visitAll_ok_of_supported children h.2
+  theorem visitAll_ok_of_supported : ∀ ps : List Py, anyUnsupported ps = false → visitAll ps = .ok ()
+    | [], _ => rfl
+    | c :: cs, h => by
+      simp only [anyUnsupported, Bool.or_eq_false_iff] at h
+      simp only [visitAll, visit_ok_of_supported c h.1]
+      exact visitAll_ok_of_supported cs h.2
+end
+
+/-- **C09.refuses_exactly** — the visitor refuses exactly the trees that contain an inexpressible node. -/
+theorem refuses_exactly (p : Py) : (∃ e, visit p = .error e) ↔ hasUnsupported p = true := by
+  constructor
+  · rintro ⟨e, he⟩
+    by_cases h : hasUnsupported p = true
+    · exact h
+    · have := visit_ok_of_supported p (by simpa using h)
+      rw [this] at he; simp at he
+  · exact fail_closed p
+
+/-- **C09.tables_recognised** — the translator understood the source it read. -/
+theorem tables_recognised : unrecognised = [] := by decide
+
+/-- **C09.documented_present** — the operators and LINQ calls the documentation promises are in
+the regenerated tables (so the refusals above concern only what is *not* documented). -/
+theorem documented_present :
+    (["Add", "Sub", "Mult", "Div", "Mod"].all binOps.contains) = true ∧
+    (["Lt", "LtE", "Gt", "GtE", "Eq", "NotEq"].all cmpOps.contains) = true ∧
+    (["UAdd", "USub", "Not"].all unaryOps.contains) = true ∧
+    (["Select", "SelectMany", "Where", "Aggregate", "First", "Range", "ResultTTree"].all callNames.contains) = true ∧
+    (["IfExp", "BoolOp", "Compare", "BinOp", "UnaryOp", "Subscript", "Tuple", "List", "Dict", "Constant", "Name", "Attribute", "Call"].all visitKinds.contains) = true := by
+  decide
+
+/-- **C09.undocumented_refused** — operators outside the documentation are outside the tables:
+floor division, bit operators, shifts, matrix multiplication, `is`, `in`, invert. -/
+theorem undocumented_refused :
+    (["FloorDiv", "BitAnd", "BitOr", "BitXor", "LShift", "RShift", "MatMult"].any binOps.contains) = false ∧
+    (["Is", "IsNot", "In", "NotIn"].any cmpOps.contains) = false ∧
+    (["Invert"].any unaryOps.contains) = false := by
+  decide
+
+example : hasUnsupported (.node "Call" "Select" 0 [.node "BinOp" "FloorDiv" 0 [.node "Name" "" 0 [], .node "Constant" "" 0 []]]) = true := by decide
+example : hasUnsupported (.node "Compare" "Lt" 2 []) = true := by decide
+example : hasUnsupported (.node "BinOp" "Add" 0 [.node "Name" "" 0 [], .node "Constant" "" 0 []]) = false := by decide
+
+end FaxVerif.C09
